@@ -36,10 +36,11 @@ META = {
     "technique": "Lean 4 proof (crash-prefix discipline: LocalOK image => correct recovery; writers keep every prefix LocalOK; trie commit closed at every "
                  "prefix; Commit lock balance under write failures) tied to core/ and trie/ by recorded write logs, exhaustive prefix reopening and fault injection",
     "text": "Theorems localOK_recovers, trace_discipline_sound, commit_children_first, closed_prefix, commit_lock_balanced and impl_trace_ok hold for all "
-            "images / traces / dirty tries / failing writes / histories in the Lean model of the chain database, its recovery and its writers (fixed variant; "
-            "for the code as written impl_trace_ok_partial excludes reorganising imports and witness theorems exhibit the two windows). Every run re-proves them, "
+            "images / traces / dirty tries / failing writes / histories in the Lean model of the chain database, its recovery and its writers as written "
+            "(prefix_* theorems document the two crash windows and the lock leak of the tree before the fix commits). Every run re-proves them, "
             "records the real write log of generated histories, checks that the writer model reproduces it event by event and that Model.recover equals the "
             "outcome of the real NewBlockChain on EVERY prefix, judges every prefix directly against the property, and injects a failure into every write.",
-    "note": GEN + " Known findings (until fixed in /repo): reorg re-points the head markers before the incoming block's batch (reopen panics), insert writes the "
-            "canonical number before LastBlock (index disagrees for one write), trie.Database.Commit leaks its read lock when a preimage flush fails.",
+    "note": GEN + " Found and fixed through this check (fix commits 141a732, 130fc0e, deec78d, 69e8ea6): reorg re-pointed the head markers before the incoming "
+            "block's batch (reopen panicked), insert wrote the canonical number before LastBlock (index disagreed for one write), trie.Database.Commit "
+            "leaked its read lock when a preimage flush failed; the prefix_* theorems document the pre-fix windows.",
 }
